@@ -1,62 +1,413 @@
 //go:build verif
 
+// C20 white-box sub-check: the linear secret sharing over the policy formula
+// (formula.go share) must let a set of input wires reconstruct the shared
+// secret if and only if that set satisfies the monotone formula. The black-box
+// API cannot see a violation of the "only if" half, because the honest
+// Decrypt refuses to run when Policy.Satisfaction fails; a key holder who
+// skips that test is stopped by the sharing alone.
 package tkn
 
 import (
 	"bytes"
 	"fmt"
+	"math/big"
 	"testing"
 
+	pairing "github.com/cloudflare/circl/ecc/bls12381"
 	"github.com/cloudflare/circl/zz_verif/vlib"
 	"golang.org/x/crypto/blake2b"
+	"pgregory.net/rapid"
 )
 
-func TestC20ProbeExploit(t *testing.T) {
-	rd := vlib.NewReader(7)
-	pp, sp, err := GenerateParams(rd)
+var c20Order = new(big.Int).SetBytes(pairing.Order())
+
+func c20Big(s *pairing.Scalar) *big.Int {
+	b, err := s.MarshalBinary()
 	if err != nil {
-		t.Fatal(err)
+		panic(err)
 	}
+	return new(big.Int).SetBytes(b)
+}
+
+// c20Tree is a monotone formula over distinct input wires.
+type c20Tree struct {
+	leaf  int // input wire number, -1 for gates
+	and   bool
+	l, r  *c20Tree
+	shape string
+}
+
+func c20Gen(t *rapid.T, leaves int, next *int) *c20Tree {
+	if leaves == 1 {
+		n := &c20Tree{leaf: *next, shape: "x"}
+		*next++
+		return n
+	}
+	l1 := rapid.IntRange(1, leaves-1).Draw(t, "split")
+	n := &c20Tree{leaf: -1, and: rapid.Bool().Draw(t, "isAnd")}
+	// children are numbered in a drawn order so that In0/In1 roles vary
+	if rapid.Bool().Draw(t, "rightFirst") {
+		n.r = c20Gen(t, leaves-l1, next)
+		n.l = c20Gen(t, l1, next)
+	} else {
+		n.l = c20Gen(t, l1, next)
+		n.r = c20Gen(t, leaves-l1, next)
+	}
+	op := "|"
+	if n.and {
+		op = "&"
+	}
+	n.shape = "(" + n.l.shape + op + n.r.shape + ")"
+	return n
+}
+
+func (n *c20Tree) text() string {
+	if n.leaf >= 0 {
+		return fmt.Sprintf("w%d", n.leaf)
+	}
+	op := " or "
+	if n.and {
+		op = " and "
+	}
+	return "(" + n.l.text() + op + n.r.text() + ")"
+}
+
+func (n *c20Tree) eval(set uint) bool {
+	if n.leaf >= 0 {
+		return set&(1<<uint(n.leaf)) != 0
+	}
+	if n.and {
+		return n.l.eval(set) && n.r.eval(set)
+	}
+	return n.l.eval(set) || n.r.eval(set)
+}
+
+// gates emits the tree in the package's wire convention: inputs 0..n,
+// gate outputs n+1..2n, the root is wire 2n.
+func (n *c20Tree) gates(ngates int) []Gate {
+	var out []Gate
+	nextOut := ngates + 1
+	var walk func(x *c20Tree) int
+	walk = func(x *c20Tree) int {
+		if x.leaf >= 0 {
+			return x.leaf
+		}
+		a := walk(x.l)
+		b := walk(x.r)
+		g := Gate{Class: Orgate, In0: a, In1: b, Out: nextOut}
+		if x.and {
+			g.Class = Andgate
+		}
+		nextOut++
+		out = append(out, g)
+		return g.Out
+	}
+	walk(n)
+	return out
+}
+
+// c20Solvable decides whether some fixed coefficients c satisfy
+// sum_i c_i * rows[j][i] = target[j] (mod order) for every run j.
+func c20Solvable(rows [][]*big.Int, target []*big.Int) bool {
+	m := len(rows)
+	if m == 0 {
+		return false
+	}
+	n := len(rows[0])
+	a := make([][]*big.Int, m)
+	for j := range rows {
+		a[j] = make([]*big.Int, n+1)
+		for i := 0; i < n; i++ {
+			a[j][i] = new(big.Int).Set(rows[j][i])
+		}
+		a[j][n] = new(big.Int).Set(target[j])
+	}
+	r := 0
+	for c := 0; c < n && r < m; c++ {
+		p := -1
+		for j := r; j < m; j++ {
+			if a[j][c].Sign() != 0 {
+				p = j
+				break
+			}
+		}
+		if p < 0 {
+			continue
+		}
+		a[r], a[p] = a[p], a[r]
+		inv := new(big.Int).ModInverse(a[r][c], c20Order)
+		for k := c; k <= n; k++ {
+			a[r][k].Mul(a[r][k], inv).Mod(a[r][k], c20Order)
+		}
+		for j := 0; j < m; j++ {
+			if j == r || a[j][c].Sign() == 0 {
+				continue
+			}
+			f := new(big.Int).Set(a[j][c])
+			for k := c; k <= n; k++ {
+				t := new(big.Int).Mul(f, a[r][k])
+				a[j][k].Sub(a[j][k], t).Mod(a[j][k], c20Order)
+			}
+		}
+		r++
+	}
+	for j := r; j < m; j++ {
+		if a[j][n].Sign() != 0 {
+			return false // 0 = non-zero: inconsistent
+		}
+	}
+	return true
+}
+
+func c20CheckFormula(t vlib.TB, sub string, f Formula, ninputs int, eval func(uint) bool, text string, seed uint64) bool {
+	runs := ninputs + 3
+	shares := make([][]*big.Int, runs) // [run][wire], entry 0 of every share
+	secrets := make([]*big.Int, runs)
+	raw := make([][]*matrixZp, runs)
+	ks := make([]*matrixZp, runs)
+	for j := 0; j < runs; j++ {
+		rd := vlib.NewReader(seed + uint64(j)*0x9e3779b97f4a7c15)
+		k, err := randomMatrixZp(rd, 2, 1)
+		if err != nil {
+			t.Fatalf("randomMatrixZp: %v", err)
+		}
+		ff := Formula{Gates: append([]Gate{}, f.Gates...)}
+		sh, err := ff.share(rd, k)
+		if err != nil {
+			vlib.Report(t, "C20/share/error", fmt.Sprintf("share fails on well-formed formula %s: %v", text, err))
+			return false
+		}
+		if len(sh) != ninputs {
+			vlib.Report(t, "C20/share/count", fmt.Sprintf("share returns %d shares for %d input wires of %s", len(sh), ninputs, text))
+			return false
+		}
+		shares[j] = make([]*big.Int, ninputs)
+		for i := range sh {
+			shares[j][i] = c20Big(&sh[i].entries[0])
+		}
+		secrets[j] = c20Big(&k.entries[0])
+		raw[j], ks[j] = sh, k
+	}
+	for set := uint(0); set < 1<<uint(ninputs); set++ {
+		vlib.Eval(sub)
+		var idx []int
+		for i := 0; i < ninputs; i++ {
+			if set&(1<<uint(i)) != 0 {
+				idx = append(idx, i)
+			}
+		}
+		rows := make([][]*big.Int, runs)
+		for j := range rows {
+			rows[j] = make([]*big.Int, len(idx))
+			for c, i := range idx {
+				rows[j][c] = shares[j][i]
+			}
+		}
+		authorised := eval(set)
+		can := len(idx) > 0 && c20Solvable(rows, secrets)
+		wires := fmt.Sprint(idx)
+		if can && !authorised {
+			vlib.Report(t, "C20/share/unauthorised-set-reconstructs", fmt.Sprintf("formula %s (gates %v): the shares of input wires %s alone determine the shared secret (a fixed linear combination reproduces it in %d independent sharings) although that set does not satisfy the formula", text, f.Gates, wires, runs))
+			return false
+		}
+		if !can && authorised {
+			vlib.Report(t, "C20/share/authorised-set-fails", fmt.Sprintf("formula %s (gates %v): the shares of input wires %s do not determine the secret although the set satisfies the formula", text, f.Gates, wires))
+			return false
+		}
+		if authorised {
+			// what decapsulate relies on: the sub-set picked by satisfaction() sums to the secret
+			var av []match
+			for _, i := range idx {
+				av = append(av, match{wire: i})
+			}
+			ff := Formula{Gates: append([]Gate{}, f.Gates...)}
+			pick, err := ff.satisfaction(av)
+			if err != nil {
+				vlib.Report(t, "C20/share/satisfaction-rejects-satisfying", fmt.Sprintf("formula %s: satisfaction(%s) = %v", text, wires, err))
+				return false
+			}
+			for j := 0; j < runs; j++ {
+				acc := newMatrixZp(2, 1)
+				for _, m := range pick {
+					acc.add(acc, raw[j][m.wire])
+				}
+				if !acc.Equal(ks[j]) {
+					vlib.Report(t, "C20/share/picked-shares-do-not-sum-to-secret", fmt.Sprintf("formula %s: wires picked by satisfaction(%s) = %v do not add up to the secret", text, wires, pick))
+					return false
+				}
+			}
+			vlib.Class(sub, "set=authorised")
+		} else {
+			vlib.Class(sub, "set=unauthorised")
+			if len(idx) > 0 {
+				vlib.NonTrivial(sub, "nontrivial:non-empty-unauthorised-set", []byte(text), []byte{byte(set)})
+			}
+		}
+	}
+	return true
+}
+
+// TestC20Shares: LSSS soundness and completeness on generated formulas, with
+// and without the Boneh–Katz gate that EncryptCCA adds (insertAnd).
+func TestC20Shares(t *testing.T) {
+	defer vlib.Done()
+	const sub = "whitebox/share"
+	// self-test of the linear-algebra helper
+	{
+		one, two, three := big.NewInt(1), big.NewInt(2), big.NewInt(3)
+		if !c20Solvable([][]*big.Int{{one, two}, {two, one}, {three, three}}, []*big.Int{three, three, big.NewInt(6)}) ||
+			c20Solvable([][]*big.Int{{one, two}, {two, big.NewInt(4)}, {three, three}}, []*big.Int{three, big.NewInt(7), big.NewInt(6)}) ||
+			c20Solvable([][]*big.Int{{big.NewInt(0)}, {big.NewInt(0)}}, []*big.Int{one, two}) {
+			t.Fatalf("SELFTEST-FAIL c20Solvable")
+		}
+		vlib.Selftest("C20 white-box: Gaussian elimination mod r", "ok")
+	}
+	vlib.Check(t, vlib.N(150, 1500), func(t *rapid.T) {
+		leaves := rapid.SampledFrom([]int{1, 2, 2, 3, 3, 4, 4, 5, 6}).Draw(t, "leaves")
+		next := 0
+		tree := c20Gen(t, leaves, &next)
+		f := Formula{Gates: tree.gates(leaves - 1)}
+		seed := rapid.Uint64().Draw(t, "seed")
+		vlib.Class(sub, fmt.Sprintf("leaves=%d", leaves))
+		if err := (&Formula{Gates: append([]Gate{}, f.Gates...)}).wellformed(); err != nil {
+			t.Fatalf("SELFTEST-FAIL generated formula is not well-formed: %v (%v)", err, f.Gates)
+		}
+		if !c20CheckFormula(t, sub, f, leaves, tree.eval, tree.text(), seed) {
+			return
+		}
+		// the formula EncryptCCA really shares over: (formula) and bk
+		g := f.insertAnd()
+		bk := uint(leaves)
+		evalBK := func(set uint) bool { return set&(1<<bk) != 0 && tree.eval(set&^(1<<bk)) }
+		if !c20CheckFormula(t, sub+"-with-bk-gate", g, leaves+1, evalBK, "("+tree.text()+fmt.Sprintf(" and w%d[bk])", leaves), seed^0x5555) {
+			return
+		}
+	})
+}
+
+// TestC20UnauthorisedKey is the end-to-end form: a key whose attributes do
+// not satisfy the policy runs the library's own decapsulation on a header cut
+// down to wires it does match. The result must not open the envelope.
+func TestC20UnauthorisedKey(t *testing.T) {
+	defer vlib.Done()
+	const sub = "whitebox/unauthorised-key"
 	hk := []byte("attribute value hashing")
-	pol := &Policy{
-		Inputs: []Wire{
-			{Label: "a", RawValue: "1", Value: HashStringToScalar(hk, "1"), Positive: true},
-			{Label: "b", RawValue: "2", Value: HashStringToScalar(hk, "2"), Positive: true},
-		},
-		F: Formula{Gates: []Gate{{Class: Andgate, In0: 0, In1: 1, Out: 2}}},
-	}
-	msg := []byte("top secret")
-	ct, err := EncryptCCA(rd, pp, pol, msg)
+	rdSetup := vlib.NewReader(uint64(vlib.Seed)*1315423911 + uint64(vlib.Shard))
+	pp, sp, err := GenerateParams(rdSetup)
 	if err != nil {
-		t.Fatal(err)
+		t.Fatalf("GenerateParams: %v", err)
 	}
-	attrs := &Attributes{"c": {Value: HashStringToScalar(hk, "0")}}
-	key, err := DeriveAttributeKeysCCA(rd, sp, attrs)
-	if err != nil {
-		t.Fatal(err)
+	wire := func(l, v string, pos bool) Wire {
+		return Wire{Label: l, RawValue: v, Value: HashStringToScalar(hk, v), Positive: pos}
 	}
-	_, err = DecryptCCA(ct, key)
-	fmt.Println("honest decrypt:", err)
-	// attacker
-	rest, rm := checkCiphertextFormat(ct)
-	id, rest, _ := removeLenPrefixed(rest)
-	macData, _, _ := rm(rest)
-	C1, envRaw, _ := rm(macData)
-	env, _, _ := rm(envRaw)
-	hdr := &ciphertextHeader{}
-	if err := hdr.unmarshalBinary(C1); err != nil {
-		t.Fatal(err)
+	type tc struct {
+		name  string
+		pol   *Policy
+		attrs Attributes
+		keep  []int // policy wires the attacker keeps besides the BK wire (each must match its key)
 	}
-	_ = id
-	n := len(hdr.p.Inputs)
-	bk := n // index of the BK wire after transformBK
-	fake := &ciphertextHeader{
-		p:     &Policy{Inputs: []Wire{{Label: bkAttribute, Value: &([]Wire{{}}[0].Value), Positive: true}}},
-		c1:    hdr.c1,
-		c2:    hdr.c2[:1],
-		c3:    []*matrixG1{hdr.c3[bk]},
-		c3neg: []*matrixG1{nil},
+	at := func(m map[string]string) Attributes {
+		a := Attributes{}
+		for k, v := range m {
+			a[k] = Attribute{Value: HashStringToScalar(hk, v)}
+		}
+		return a
 	}
-	fake.p.Inputs[0].Value = HashStringToScalar(hk, "x") // any: wildcard key uses the wire value y... 
-	_ = fake
+	cases := []tc{
+		{"a:1 and b:2 / key {c:0} / BK wire only", &Policy{Inputs: []Wire{wire("a", "1", true), wire("b", "2", true)}, F: Formula{Gates: []Gate{{Andgate, 0, 1, 2}}}}, at(map[string]string{"c": "0"}), nil},
+		{"a:1 / key {} / BK wire only", &Policy{Inputs: []Wire{wire("a", "1", true)}}, at(map[string]string{}), nil},
+		{"a:1 and b:2 / key {a:1} / wires a + BK", &Policy{Inputs: []Wire{wire("a", "1", true), wire("b", "2", true)}, F: Formula{Gates: []Gate{{Andgate, 0, 1, 2}}}}, at(map[string]string{"a": "1"}), []int{0}},
+		{"a:1 and b:2 / key {b:2} / wires b + BK", &Policy{Inputs: []Wire{wire("a", "1", true), wire("b", "2", true)}, F: Formula{Gates: []Gate{{Andgate, 0, 1, 2}}}}, at(map[string]string{"b": "2"}), []int{1}},
+		{"(a:1 or c:0) and b:2 / key {c:0} / wires c + BK", &Policy{Inputs: []Wire{wire("a", "1", true), wire("c", "0", true), wire("b", "2", true)}, F: Formula{Gates: []Gate{{Orgate, 0, 1, 3}, {Andgate, 3, 2, 4}}}}, at(map[string]string{"c": "0"}), []int{1}},
+	}
+	for ci, c := range cases {
+		vlib.Eval(sub)
+		msg := []byte(fmt.Sprintf("C20 white-box message %d", ci))
+		rd := vlib.NewReader(uint64(vlib.Seed)*977 + uint64(ci))
+		ct, err := EncryptCCA(rd, pp, c.pol, msg)
+		if err != nil {
+			t.Fatalf("EncryptCCA: %v", err)
+		}
+		attrs := c.attrs
+		key, err := DeriveAttributeKeysCCA(rd, sp, &attrs)
+		if err != nil {
+			t.Fatalf("DeriveAttributeKeysCCA: %v", err)
+		}
+		if _, err := DecryptCCA(ct, key); err == nil {
+			t.Fatalf("SELFTEST-FAIL case %q: the key is supposed to be unauthorised but DecryptCCA succeeds", c.name)
+		}
+		rest, rm := checkCiphertextFormat(ct)
+		id, rest, e1 := removeLenPrefixed(rest)
+		macData, _, e2 := rm(rest)
+		if e1 != nil || e2 != nil {
+			t.Fatalf("cannot parse own ciphertext")
+		}
+		C1, envRaw, e3 := rm(macData)
+		env, _, e4 := rm(envRaw)
+		hdr := &ciphertextHeader{}
+		if e3 != nil || e4 != nil || hdr.unmarshalBinary(C1) != nil {
+			t.Fatalf("cannot parse own ciphertext header")
+		}
+		numid := &pairing.Scalar{}
+		numid.SetBytes(id)
+		full := hdr.p.transformBK(numid)
+		pi := full.pi()
+		bk := len(hdr.p.Inputs)
+		// reduced header: kept wires + BK wire under one flat formula (all needed)
+		keep := append(append([]int{}, c.keep...), bk)
+		red := &ciphertextHeader{p: &Policy{}, c1: hdr.c1}
+		maxd := 0
+		for _, w := range keep {
+			red.p.Inputs = append(red.p.Inputs, full.Inputs[w])
+			red.c3 = append(red.c3, hdr.c3[w])
+			red.c3neg = append(red.c3neg, hdr.c3neg[w])
+			if pi[w] > maxd {
+				maxd = pi[w]
+			}
+		}
+		// labels in the reduced policy are distinct in these cases, so every wire uses c2[pi] of the full policy;
+		// the cases are chosen such that pi = 0 for every kept wire
+		if maxd != 0 {
+			t.Fatalf("SELFTEST-FAIL case %q needs c2 index %d", c.name, maxd)
+		}
+		red.c2 = hdr.c2[:1]
+		n := len(keep) - 1
+		switch n {
+		case 0:
+		case 1:
+			red.p.F = Formula{Gates: []Gate{{Andgate, 0, 1, 2}}}
+		default:
+			t.Fatalf("SELFTEST-FAIL unsupported case")
+		}
+		var pt []byte
+		pn, _ := vlib.Catch(func() {
+			encPoint, err := decapsulate(red, key)
+			if err != nil {
+				return
+			}
+			encKey, err := encPoint.MarshalBinary()
+			if err != nil {
+				return
+			}
+			h := blake2b.Sum256(encKey)
+			dec, err := blakeDecrypt(h[:], env)
+			if err != nil || len(dec) < macKeySeedSize {
+				return
+			}
+			pt = dec[macKeySeedSize:]
+		})
+		if pn != nil {
+			vlib.Class(sub, "decapsulation-panics")
+			continue
+		}
+		if bytes.Equal(pt, msg) {
+			vlib.ReportDirect(t, "C20/share/unauthorised-key-recovers-message", fmt.Sprintf("case %q: a key that does not satisfy the policy recovers the plaintext %q by running decapsulate on the header restricted to the wires it matches (honest DecryptCCA refuses only because of the Satisfaction pre-check)", c.name, pt), map[string]interface{}{"case": c.name})
+			if t.Failed() {
+				return
+			}
+			continue
+		}
+		vlib.NonTrivial(sub, "unauthorised-subset-yields-garbage", []byte(c.name))
+	}
 }
